@@ -274,6 +274,15 @@ func Prop(t *rapid.T, viaTM bool, onlyIdent int, rec *kit.Recorder) {
 			t.Fatalf("requester %d: request failed with %v but a notification arrived", i, results[i])
 		}
 	}
+	if viaTM {
+		// and the identity that is gone is the target of no relation any more (C06)
+		for i := range reqs {
+			if wtm.TargetManager.HasLink(reqs[i], id) || wtm.TargetManager.HasMonitor(reqs[i], id) {
+				t.Fatalf("requester %d still holds a relation on %v although that identity is gone (request returned %v, %d notifications; identity kind %d, vanish %d)\ntrace: %v",
+					i, id, results[i], notes[i], ident, vanish, s.Trace)
+			}
+		}
+	}
 	nontrivial := false
 	for pair := range s.CoPark {
 		ab := strings.Split(pair, "|")
